@@ -22,6 +22,7 @@ type KnownFinding struct {
 	Status     string `json:"status"`     // known | fixed
 	Commit     string `json:"commit,omitempty"`
 	What       string `json:"what"`
+	Match      string `json:"match,omitempty"` // bounded checks: substring identifying the failing-input lines of this finding
 }
 
 type propConfig struct {
@@ -51,7 +52,7 @@ var propConfigs = map[string]propConfig{
 	"C03": {Gen: true, Bounded: []boundedCheck{{Name: "independent-striping", Run: "TestBoundedC03", Module: true,
 		Bound: "two struct shapes (Rec, Deep: see C02), 24 seeded random record sets each (1..60 records; every pointer nil one time in three, lists of length 0..3 and occasionally 9..17 at every nesting level, extreme values): the repetition level, definition level and PLAIN value of every entry of every column, decoded from the written file by the independent parser, compared with an independent implementation of Dremel striping written from the paper over Go reflection"}}},
 	"C01": {Gen: true, Bounded: []boundedCheck{{Name: "round-trip", Run: "TestBoundedC01", Module: true,
-		Bound: "two struct shapes (Rec, Deep), 39 resp. 30 seeded random record sets (0..120 records, three sets of 1300 records in pages of 600..2000 records so that level streams hold bit-packed runs beyond 504 values; nil/non-nil optionals and list lengths 0..3/9..17 at every level; min/max integers, +-0, +-Inf, NaN payloads, empty/long/non-UTF8 strings), partitions {one batch, two batches, one record per batch, 1/n3/rest}, page sizes 1,2,3,7,1000, three codecs: records read back and compared entry by entry (floats bit for bit, nil and empty lists alike), Rows(), number of true Next() calls, Error()==nil; every record's slices and strings mutated by the caller right after Add; all records compared only after the last one was scanned"}}},
+		Bound: "three struct shapes (Rec, Deep, and OPP = the shape of known finding D10), 39 resp. 30 resp. 40 seeded random record sets (0..120 records, three sets of 1300 records in pages of 600..2000 records so that level streams hold bit-packed runs beyond 504 values; nil/non-nil optionals and list lengths 0..3/9..17 at every level; min/max integers, +-0, +-Inf, NaN payloads, empty/long/non-UTF8 strings), partitions {one batch, two batches, one record per batch, 1/n3/rest}, page sizes 1,2,3,7,1000, three codecs: records read back and compared entry by entry (floats bit for bit, nil and empty lists alike), Rows(), number of true Next() calls, Error()==nil; every record's slices and strings mutated by the caller right after Add; all records compared only after the last one was scanned"}}},
 	"C04": {Bounded: []boundedCheck{{Name: "foreign-encodings", Run: "TestBoundedC04", Module: true,
 		Bound: "60 files (1..700 records of the Rec shape, 1-2 row groups, written with each codec and page sizes 1/3/8/1000) re-encoded by an independent rewriter into another legal encoding of the same content (seeded random: RLE runs of any length >= 1, bit-packed runs of any group count incl. > 63 groups with multi-byte headers, padding bits of the last group set to 1, pages split per column at arbitrary record boundaries, a codec per column, statistics/created_by present or absent); each rewritten file is first accepted by the independent checker and decoded back to the same columns, then read with the generated reader and compared record by record"},
 		{Name: "level-decoder-foreign-encodings", PkgRel: "internal/rle", File: "replay/rle_bounded_test.go.txt", Run: "TestBoundedC07",
@@ -142,7 +143,7 @@ func runCheck(o checkOpts) *CheckResult {
 	report := func(v Violation) {
 		// known finding?
 		for _, k := range known {
-			if k.Property == o.prop && k.Status == "known" && k.Obligation == v.Obligation {
+			if k.Property == o.prop && k.Status == "known" && k.Match == "" && k.Obligation == v.Obligation {
 				line := fmt.Sprintf("KNOWN-FINDING: property=%s %s — %s", o.prop, k.Obligation, k.What)
 				fmt.Println(line)
 				res.Known = append(res.Known, line)
@@ -416,9 +417,34 @@ func runCheck(o checkOpts) *CheckResult {
 		}
 		if err != nil {
 			var fails []string
+			knownHit := map[int]int{}
 			for _, l := range strings.Split(out, "\n") {
-				if i := strings.Index(l, "REPLAY-FAIL"); i >= 0 && len(fails) < 5 {
+				i := strings.Index(l, "REPLAY-FAIL")
+				if i < 0 {
+					continue
+				}
+				// failing inputs of a listed (unrepaired) finding are reported as such, not as a violation
+				isKnown := false
+				for ki, k := range known {
+					if k.Property == o.prop && k.Status == "known" && k.Obligation == "bounded:"+bc.Name && k.Match != "" && strings.Contains(l, k.Match) {
+						knownHit[ki]++
+						isKnown = true
+					}
+				}
+				if !isKnown && len(fails) < 5 {
 					fails = append(fails, strings.TrimSpace(l[i:]))
+				}
+			}
+			if len(knownHit) > 0 {
+				for ki, n := range knownHit {
+					line := fmt.Sprintf("KNOWN-FINDING: property=%s bounded:%s %s (%d failing inputs in this run) — %s", o.prop, bc.Name, known[ki].Match, n, known[ki].What)
+					fmt.Println(line)
+					res.Known = append(res.Known, line)
+				}
+				// nothing else failed: the packages without a listed finding report ok, no other failing input
+				if len(fails) == 0 && !strings.Contains(out, "panic: ") && !strings.Contains(out, "[build failed]") && !strings.Contains(out, "[setup failed]") && onlyKnownPkgsFail(out, known, o.prop, "bounded:"+bc.Name) {
+					boundedEv = append(boundedEv, fmt.Sprintf("%s: passed apart from the listed known finding(s); bound: %s", bc.Name, bc.Bound))
+					continue
 				}
 			}
 			p := writeReplay("bounded_"+bc.Name, map[string]interface{}{"obligation": "bounded:" + bc.Name, "bound": bc.Bound, "failing_inputs": fails, "output": truncate(out, 4000), "replay_test": string(src), "replay_pkg": bc.PkgRel, "repo": o.repo})
@@ -587,4 +613,23 @@ func boundedOrEmpty(b []string) []string {
 		return []string{}
 	}
 	return b
+}
+
+// onlyKnownPkgsFail: every "--- FAIL" test of the output has at least one failing-input line and all of
+// them belong to listed findings (checked by the caller); additionally no package failed without any
+// REPLAY-FAIL line (a crash or a timeout must not hide behind a known finding).
+func onlyKnownPkgsFail(out string, known []KnownFinding, prop, obl string) bool {
+	pkgFail := 0
+	for _, l := range strings.Split(out, "\n") {
+		if strings.HasPrefix(l, "FAIL\t") {
+			pkgFail++
+		}
+	}
+	lines := 0
+	for _, l := range strings.Split(out, "\n") {
+		if strings.Contains(l, "REPLAY-FAIL") {
+			lines++
+		}
+	}
+	return pkgFail >= 1 && lines >= 1 && !strings.Contains(out, "timed out")
 }
